@@ -60,6 +60,12 @@ func aePictures(seed int64, alphaOnly bool) []aePic {
 			semi.SetNRGBA(x, y, c)
 		}
 	}
+	semiOnly := image.NewNRGBA(image.Rect(0, 0, aeW, aeH)) // the translucent band alone on transparent ground
+	for y := 2; y < 6; y++ {
+		for x := 0; x < aeW; x++ {
+			semiOnly.SetNRGBA(x, y, semi.NRGBAAt(x, y))
+		}
+	}
 	semi1 := clone(semi) // one pixel changes inside the translucent band (neighbours unchanged, alpha 128)
 	semi1.SetNRGBA(3, 3, color.NRGBA{1, 2, 3, 128})
 	semiO := clone(semi) // an OPAQUE pixel appears inside the translucent band: its even-snapped
@@ -96,6 +102,7 @@ func aePictures(seed int64, alphaOnly bool) []aePic {
 		self("semi-band", semi)
 		self("semi-band-1px", semi1)
 		self("semi-band-opaque-px", semiO)
+		self("semi-band-alone", semiOnly)
 		self("transparent", image.NewNRGBA(image.Rect(0, 0, aeW, aeH)))
 		self("opaque", base)
 		return out
@@ -123,6 +130,7 @@ func aePictures(seed int64, alphaOnly bool) []aePic {
 	self("semi-band-1px", semi1)
 	self("semi-band-opaque-px", semiO)
 	self("semi-to-transparent", semiT)
+	self("semi-band-alone", semiOnly)
 	self("binary", bin)
 	self("binary+1px", bin1)
 	self("binary+1px-recoloured", bin2)
@@ -155,6 +163,97 @@ func aePictures(seed int64, alphaOnly bool) []aePic {
 	return out
 }
 
+// aeLW x aeLH is the second, larger canvas: more than 256 pixels so that a picture can
+// have more colours than a palette holds, and two macroblocks for the lossy codec.
+const aeLW, aeLH = 24, 16
+
+func aeLargePictures(seed int64, alphaOnly bool) []aePic {
+	var out []aePic
+	self := func(name string, m *image.NRGBA) { out = append(out, aePic{name, m, m}) }
+	noise := image.NewNRGBA(image.Rect(0, 0, aeLW, aeLH))
+	rnd := uint32(seed)*2654435761 + 12345
+	next := func() color.NRGBA { // incompressible content: storing unchanged pixels as holes pays off
+		rnd = rnd*1664525 + 1013904223
+		return color.NRGBA{uint8(rnd >> 24), uint8(rnd >> 16), uint8(rnd >> 8), 255}
+	}
+	for y := 0; y < aeLH; y++ {
+		for x := 0; x < aeLW; x++ {
+			noise.SetNRGBA(x, y, next())
+		}
+	}
+	corners := clone(noise) // two changed pixels whose bounding box is the whole canvas
+	corners.SetNRGBA(0, 0, color.NRGBA{255, 255, 255, 255})
+	corners.SetNRGBA(aeLW-1, aeLH-1, color.NRGBA{1, 1, 1, 255})
+	one := clone(noise)
+	one.SetNRGBA(13, 7, color.NRGBA{255, 0, 255, 255})
+	topRows := clone(noise) // a large changed region first, unchanged pixels only after it, one changed pixel at the end
+	for y := 0; y < 11; y++ {
+		for x := 0; x < aeLW; x++ {
+			topRows.SetNRGBA(x, y, next())
+		}
+	}
+	topRows.SetNRGBA(aeLW-1, aeLH-1, color.NRGBA{9, 9, 9, 255})
+	late := clone(noise) // the only transparent pixels come after more than 256 colours
+	for x := 0; x < aeLW; x++ {
+		late.SetNRGBA(x, aeLH-1, color.NRGBA{})
+	}
+	lastpx := clone(noise)
+	lastpx.SetNRGBA(aeLW-1, aeLH-1, color.NRGBA{})
+	flat := image.NewNRGBA(image.Rect(0, 0, aeLW, aeLH))
+	pal := []color.NRGBA{{200, 30, 10, 255}, {10, 90, 250, 255}, {250, 250, 250, 255}, {0, 0, 0, 255}}
+	for y := 0; y < aeLH; y++ {
+		for x := 0; x < aeLW; x++ {
+			flat.SetNRGBA(x, y, pal[(x/5+y/3+int(seed))%4])
+		}
+	}
+	graded := clone(noise)
+	semi := clone(noise)
+	binR := clone(noise)
+	for y := 0; y < aeLH; y++ {
+		for x := 0; x < aeLW; x++ {
+			c := graded.NRGBAAt(x, y)
+			c.A = uint8(x * 255 / (aeLW - 1))
+			graded.SetNRGBA(x, y, c)
+			if y >= 4 && y < 12 {
+				c.A = 128
+				semi.SetNRGBA(x, y, c)
+			}
+			if x >= 16 {
+				binR.SetNRGBA(x, y, color.NRGBA{})
+			}
+		}
+	}
+	semiOnlyL := image.NewNRGBA(image.Rect(0, 0, aeLW, aeLH)) // the translucent band alone on transparent ground
+	for y := 4; y < 12; y++ {
+		for x := 0; x < aeLW; x++ {
+			semiOnlyL.SetNRGBA(x, y, semi.NRGBAAt(x, y))
+		}
+	}
+	semiO := clone(semi) // an opaque pixel appears inside the translucent band of the second macroblock
+	semiO.SetNRGBA(19, 7, color.NRGBA{250, 240, 10, 255})
+	if alphaOnly {
+		self("L-opaque", noise)
+		self("L-graded", graded)
+		self("L-semi-band", semi)
+		self("L-semi-band-opaque-px", semiO)
+		self("L-semi-band-alone", semiOnlyL)
+		self("L-binary-right", binR)
+		self("L-late-row-transparent", late)
+		return out
+	}
+	self("L-noise", noise)
+	self("L-noise-corners", corners)
+	self("L-noise-1px", one)
+	self("L-noise-top-rows-and-last-px", topRows)
+	self("L-noise-late-row-transparent", late)
+	self("L-noise-last-px-transparent", lastpx)
+	self("L-flat-4-colours", flat)
+	self("L-semi-band", semi)
+	self("L-semi-band-opaque-px", semiO)
+	self("L-semi-band-alone", semiOnlyL)
+	return out
+}
+
 type aeOp struct {
 	Pic int
 	Dur int // milliseconds
@@ -170,6 +269,7 @@ type aeConfig struct {
 }
 
 type aeSys struct {
+	w, h      int // canvas
 	pics      []aePic
 	ops       []aeOp
 	cfg       aeConfig
@@ -200,8 +300,11 @@ func (s *aeSys) Describe(h []int) string {
 }
 
 func sameCanvas(a, b *image.NRGBA, alphaOnly bool) bool {
-	for y := 0; y < aeH; y++ {
-		for x := 0; x < aeW; x++ {
+	if a.Rect.Dx() != b.Rect.Dx() || a.Rect.Dy() != b.Rect.Dy() {
+		return false
+	}
+	for y := 0; y < a.Rect.Dy(); y++ {
+		for x := 0; x < a.Rect.Dx(); x++ {
 			p, q := a.NRGBAAt(a.Rect.Min.X+x, a.Rect.Min.Y+y), b.NRGBAAt(b.Rect.Min.X+x, b.Rect.Min.Y+y)
 			if alphaOnly {
 				if p.A != q.A {
@@ -220,8 +323,11 @@ func sameCanvas(a, b *image.NRGBA, alphaOnly bool) bool {
 func firstDiff(want, got *image.NRGBA, alphaOnly bool) string {
 	n := 0
 	f := ""
-	for y := 0; y < aeH; y++ {
-		for x := 0; x < aeW; x++ {
+	if want.Rect.Dx() != got.Rect.Dx() || want.Rect.Dy() != got.Rect.Dy() {
+		return fmt.Sprintf("canvas is %v, want %v", got.Rect, want.Rect)
+	}
+	for y := 0; y < want.Rect.Dy(); y++ {
+		for x := 0; x < want.Rect.Dx(); x++ {
 			p, q := want.NRGBAAt(want.Rect.Min.X+x, want.Rect.Min.Y+y), got.NRGBAAt(got.Rect.Min.X+x, got.Rect.Min.Y+y)
 			bad := p != q && !(p.A == 0 && q.A == 0)
 			if alphaOnly {
@@ -266,10 +372,10 @@ func (s *aeSys) Exec(h []int) (st bfs.Step) {
 	// (deterministic per history, and ~10x cheaper than never reusing)
 	vsync.ResetPools()
 	var buf bytes.Buffer
-	enc := animation.NewEncoder(&buf, aeW, aeH, &animation.EncodeOptions{
+	enc := animation.NewEncoder(&buf, s.w, s.h, &animation.EncodeOptions{
 		LoopCount: s.cfg.Loop, Kmin: s.cfg.Kmin, Kmax: s.cfg.Kmax, Lossless: s.cfg.Lossless, AllowMixed: s.cfg.AllowMixed, Quality: s.cfg.Quality})
 	if enc == nil {
-		return bfs.Step{Violation: "NewEncoder returned nil for an 8x8 canvas"}
+		return bfs.Step{Violation: fmt.Sprintf("NewEncoder returned nil for a %dx%d canvas", s.w, s.h)}
 	}
 	var want []run
 	for _, i := range h {
@@ -304,8 +410,8 @@ func (s *aeSys) playback(out []byte, want []run) string {
 	if len(f.Problems) > 0 {
 		return "output is not a conformant container: " + strings.Join(f.Problems, "; ")
 	}
-	if f.CanvasW != aeW || f.CanvasH != aeH {
-		return fmt.Sprintf("canvas size %dx%d, encoder was created with %dx%d", f.CanvasW, f.CanvasH, aeW, aeH)
+	if f.CanvasW != s.w || f.CanvasH != s.h {
+		return fmt.Sprintf("canvas size %dx%d, encoder was created with %dx%d", f.CanvasW, f.CanvasH, s.w, s.h)
 	}
 	timing := len(want) >= 2
 	// --- reference stack
@@ -331,7 +437,7 @@ func (s *aeSys) playback(out []byte, want []run) string {
 		rframes = append(rframes, refdec.RFrame{X: x, Y: y, Img: img, NoBlend: nb, Dispose: dp})
 		durs = append(durs, fr.Duration)
 	}
-	refCanvases := refdec.Compose(aeW, aeH, rframes)
+	refCanvases := refdec.Compose(s.w, s.h, rframes)
 	var gotRef []run
 	for i, c := range refCanvases {
 		gotRef = append(gotRef, run{c, durs[i]})
@@ -350,7 +456,7 @@ func (s *aeSys) playback(out []byte, want []run) string {
 	if err != nil {
 		return "animation.DecodeBytes rejects the encoder's output: " + err.Error()
 	}
-	if an.CanvasWidth != aeW || an.CanvasHeight != aeH {
+	if an.CanvasWidth != s.w || an.CanvasHeight != s.h {
 		return fmt.Sprintf("animation.DecodeBytes canvas %dx%d", an.CanvasWidth, an.CanvasHeight)
 	}
 	if err := an.DecodeFrames(); err != nil {
@@ -442,9 +548,17 @@ func aeOps(pics []aePic, alphaOnly bool) []aeOp {
 }
 
 func registerAnimEnc(id string, alphaOnly bool, configs func(e *fw.Env) []aeConfig, depth func(e *fw.Env) int, rule string) {
-	mk := func(e *fw.Env, seed int64, cfg aeConfig) *aeSys {
+	mk := func(e *fw.Env, seed int64, cfg aeConfig, large bool) *aeSys {
+		if large {
+			pics := aeLargePictures(seed, alphaOnly)
+			var ops []aeOp
+			for i := range pics {
+				ops = append(ops, aeOp{i, 100})
+			}
+			return &aeSys{w: aeLW, h: aeLH, pics: pics, ops: ops, cfg: cfg, alphaOnly: alphaOnly}
+		}
 		pics := aePictures(seed, alphaOnly)
-		return &aeSys{pics: pics, ops: aeOps(pics, alphaOnly), cfg: cfg, alphaOnly: alphaOnly}
+		return &aeSys{w: aeW, h: aeH, pics: pics, ops: aeOps(pics, alphaOnly), cfg: cfg, alphaOnly: alphaOnly}
 	}
 	fw.Register(&fw.Check{
 		ID: id, Level: "model_checking", Shards: shards16, Rule: rule,
@@ -455,13 +569,13 @@ func registerAnimEnc(id string, alphaOnly bool, configs func(e *fw.Env) []aeConf
 			cfgs := configs(e)
 			ns := 0
 			for ci, cfg := range cfgs {
-				for pass := 0; pass < 2; pass++ {
-					sys := mk(e, e.Seed, cfg)
+				for pass := 0; pass < 3; pass++ {
+					sys := mk(e, e.Seed, cfg, pass == 2)
 					dep := depth(e)
 					if pass == 0 && e.Quick() && ci >= 3 && !alphaOnly {
-					continue // quick: full alphabet on the first three configurations, core alphabet on all
-				}
-				if pass == 1 {
+						continue // quick: full alphabet on the first three configurations, core alphabet on all
+					}
+					if pass == 1 {
 						// second search: reduced alphabet, one level deeper
 						sys.ops = aeCoreOps(sys.pics)
 						dep++
@@ -476,10 +590,10 @@ func registerAnimEnc(id string, alphaOnly bool, configs func(e *fw.Env) []aeConf
 							for _, i := range h {
 								ops = append(ops, sys.ops[i])
 							}
-							r.Violate("anim "+sys.Describe(h), v+" ["+sys.Describe(h)+"]", map[string]any{"ops": ops, "cfg": cfg})
+							r.Violate("anim "+sys.Describe(h), v+" ["+sys.Describe(h)+"]", map[string]any{"ops": ops, "cfg": cfg, "large": pass == 2})
 						},
 						OnState: func(key uint64, h []int) {
-							r.DistinctHash(key ^ uint64(ci)<<56)
+							r.DistinctHash(key ^ uint64(ci)<<56 ^ uint64(pass)<<52)
 							if ns < 3 && len(h) == 3 {
 								ns++
 								r.Sample(4, map[string]any{"history": sys.Describe(h)})
@@ -503,12 +617,13 @@ func registerAnimEnc(id string, alphaOnly bool, configs func(e *fw.Env) []aeConf
 		Replay: func(e *fw.Env, raw json.RawMessage) string {
 			pin()
 			var rp struct {
-				Ops []aeOp
-				Cfg aeConfig
+				Ops   []aeOp
+				Cfg   aeConfig
+				Large bool
 			}
 			json.Unmarshal(raw, &rp)
 			setPoolsMostRecent()
-			sys := mk(e, e.Seed, rp.Cfg)
+			sys := mk(e, e.Seed, rp.Cfg, rp.Large)
 			sys.ops = rp.Ops
 			h := make([]int, len(rp.Ops))
 			for i := range h {
@@ -537,7 +652,7 @@ func init() {
 			}
 			return 4
 		},
-		"explicit-state BFS over the real lossless AnimEncoder on an 8x8 canvas: every AddFrame history up to depth 3 (thorough 4; a 7-picture core alphabet one level deeper) over 22 (picture, duration) operations (15 pictures: base, 1-pixel changes at even/odd coordinates, 2x2 block, all changed, translucent band with unchanged translucent neighbours, pixel becoming transparent, binary alpha, smaller than canvas, foreign-stride view, fully transparent; durations 0/1/100/0xFFFFFF ms) x 8 configurations (Kmin/Kmax x loop count); every history is closed and played back by animation.DecodeBytes+AnimDecoder and by the reference stack and compared with the run-length-merged input list, display times, total duration, loop count, canvas size")
+		"explicit-state BFS over the real lossless AnimEncoder on an 8x8 canvas: every AddFrame history up to depth 3 (thorough 4; a 7-picture core alphabet one level deeper) over 22 (picture, duration) operations (15 pictures: base, 1-pixel changes at even/odd coordinates, 2x2 block, all changed, translucent band with unchanged translucent neighbours, pixel becoming transparent, binary alpha, smaller than canvas, foreign-stride view, fully transparent; durations 0/1/100/0xFFFFFF ms) x 8 configurations (Kmin/Kmax x loop count), and a third search on a 24x16 canvas over 10 pictures that have more colours than a palette holds (every pixel its own colour; changed corner pixels whose bounding box is the canvas; a changed region followed by unchanged pixels; transparent pixels that come only after 256 colours; translucent band); every history is closed and played back by animation.DecodeBytes+AnimDecoder and by the reference stack and compared with the run-length-merged input list, display times, total duration, loop count, canvas size")
 	registerAnimEnc("C18", true,
 		func(e *fw.Env) []aeConfig {
 			var out []aeConfig
@@ -560,5 +675,5 @@ func init() {
 			}
 			return 4
 		},
-		"explicit-state BFS over the real AnimEncoder in lossy and mixed-codec modes on an 8x8 canvas: every AddFrame history up to depth 3 (thorough 4; a reduced alphabet one level deeper) over 11 operations (7 pictures with binary, graded and translucent alpha, fully transparent, opaque; durations 0/100/0xFFFFFF ms) x 8 configurations (Lossless x AllowMixed x Quality x key-frame setting); the alpha channel of every played-back canvas (this package's player and the reference stack) must equal the source alpha exactly")
+		"explicit-state BFS over the real AnimEncoder in lossy and mixed-codec modes on an 8x8 canvas: every AddFrame history up to depth 3 (thorough 4; a reduced alphabet one level deeper) over 11 operations (10 pictures with binary, graded and translucent alpha on opaque and on transparent ground, fully transparent, opaque; durations 0/100/0xFFFFFF ms) x 8 configurations (Lossless x AllowMixed x Quality x key-frame setting), and a third search on a 24x16 canvas (two macroblocks) over 7 pictures; the alpha channel of every played-back canvas (this package's player and the reference stack) must equal the source alpha exactly")
 }
